@@ -708,3 +708,19 @@ Inductive reach (c : cfg) : state -> Prop :=
 Definition pub (d : bdir) : option bytes * bool * list (N * bytes) := (d_data d, d_ban d, d_md d).
 Definition dir_of (s : state) (x : N) : option bdir :=
   match mem s x with Some e => vget (area_of e) (blobs (disk s) x) | None => None end.
+
+(* "every key can be created and completed again": (Delete if present, unlink order [ord]), Create, MarkComplete *)
+Definition reuse (c : cfg) (s : state) (x sz : N) (ord : list fname) : bool :=
+  let r1 := match mem s x with
+            | Some _ => let r := step c s (Delete x ord) in (st_of r, is_ok (out_of r))
+            | None => (s, true)
+            end in
+  let r2 := step c (fst r1) (Create x sz) in
+  let r3 := step c (st_of r2) (MarkComplete x) in
+  snd r1 && is_ok (out_of r2) && is_ok (out_of r3)
+  && match mem (st_of r3) x with Some e => e_complete e | None => false end.
+
+(* the state after a history of completed operations, and the client contract along it *)
+Definition after (c : cfg) (s : state) (ops : list op) : state := fold_left (fun s o => st_of (step c s o)) ops s.
+Fixpoint wf_all (c : cfg) (s : state) (ops : list op) : bool :=
+  match ops with [] => true | o :: t => wf_op c s o && wf_all c (st_of (step c s o)) t end.
